@@ -73,7 +73,7 @@ func VerifC02Rewrite() {
 		URL: &url.URL{Path: "/p", RawQuery: "q=1"}, Header: http.Header{"X-Keep": []string{keep}, "X-Set": []string{"old"}}}
 	priorXFF := zzverif.Bool("priorXFF")
 	if priorXFF {
-		in.Header["X-Forwarded-For"] = []string{"1.1.1.1"}
+		in.Header["X-Forwarded-For"] = []string{"1.1.1.1", "2.2.2.2"}
 	}
 	in = in.WithContext(ctx)
 	out := in.Clone(ctx)
@@ -85,7 +85,7 @@ func VerifC02Rewrite() {
 	zzverif.Assert(len(out.Header["X-Keep"]) == 1 && out.Header["X-Keep"][0] == keep, "C02.rewrite.other-headers-untouched")
 	xff := out.Header["X-Forwarded-For"]
 	if priorXFF {
-		zzverif.Assert(len(xff) == 1 && xff[0] == "1.1.1.1, 9.9.9.9", "C02.rewrite.xff-extended-by-user-address")
+		zzverif.Assert(len(xff) == 1 && xff[0] == "1.1.1.1, 2.2.2.2, 9.9.9.9", "C02.rewrite.xff-extended-by-user-address")
 	} else {
 		zzverif.Assert(len(xff) == 1 && xff[0] == "9.9.9.9", "C02.rewrite.xff-is-user-address")
 	}
